@@ -474,8 +474,11 @@ PROPS["C06"] = {
              "sign (drawn qualified quorum of the CURRENT structure, Lindell22 BIP-340 / Mina / configurable Schnorr or DKLs23-SoftSpoken, "
              "judged under the ORIGINAL key by the library verifier and the independent one: BIP-340 of the BIP text, Schnorr group "
              "equation, textbook ECDSA / crypto/ecdsa), mix (a set qualified by the policy assembled from two epochs of the same "
-             "structure, neither part qualified alone, tries to sign), reload (CBOR round trip of all current shards; continue with the "
-             "decoded ones). All runs go through the network runners over the harness Delivery. Invariant after every epoch change: every "
+             "structure, neither part qualified alone, tries to sign), stale (a refresh / redistribution in which 1..|prev|-1 of the "
+             "driving holders use their shard of an EARLIER epoch of the same structure: any party may abort, but a next holder that "
+             "completes must hold the ORIGINAL key and a share matching its public share, and if all complete the full invariant must "
+             "hold), reload (CBOR round trip of all current shards; continue with the decoded ones). Every protocol run of a history has "
+             "its own random tapes (drawn seed + run ordinal). All runs go through the network runners over the harness Delivery. Invariant after every epoch change: every "
              "party finishes without error, every next holder has a shard with its own ID, the ORIGINAL public key, the same "
              "verification vector / span programme / public shares as the others; private share lifts to its public share; for EVERY "
              "subset of holders: qualified <=> Reconstruct == s exactly and reconstruction in the exponent == pk, unqualified => error; "
@@ -487,7 +490,8 @@ PROPS["C06"] = {
     "assumptions": COMMON_ASSUME + [
         "a full quorum of an OLD epoch still works by design (README: shares are not erased) - nothing is asserted about it; only sets that need shares of two epochs are claimed not to combine",
         "a mixed-epoch set reconstructing s by chance is a 1/q event and treated as impossible",
-        "mixed-epoch signing: any failure (constructor, run, aggregation, verification) is accepted; parties that send nothing for 4 s are cancelled without a verdict",
+        "mixed-epoch signing and stale-shard epoch changes: any failure (constructor, run, aggregation, verification) is accepted; parties that send nothing for 4-5 s are cancelled without a verdict",
+        "two protocol runs never share a random tape (re-running a refresh on the same tapes with the same drivers re-deals the same sharing; that is randomness reuse by the caller, not a defect)",
         "Mina signatures are judged by the library verifier only (no independent Poseidon implementation offline); vesta and BLS12-381 G1/G2 have no threshold signing protocol, their histories are judged by reconstruction only",
     ],
     "quick": {"scale": 1, "shards": 16, "timeout_s": 1500},
